@@ -65,6 +65,18 @@ CHECKS = [
                 'subprocess through real pipes under latin-1 and UTF-8 stdin.',
         'note': 'interactive terminals and the pygame window are out of reach; StandardIO under UTF-8 stdin is a recorded known finding',
     },
+    {
+        'property_id': 'C18', 'level': 'fault_enumeration', 'design_ref': 'DESIGN.md 4 C18',
+        'technique': 'runtime monitoring: fault injection at every IO call index + real asynchronous signals, judged by the reference machine stopped at the same point',
+        'text': 'For generated programs every IO call index k is faulted with a library IO error, IOReadOnEOF (from read and '
+                'from write), a foreign exception, KeyboardInterrupt and a non-bool reply whose __bool__ raises, on featured, '
+                'fast and native flat/hybrid/paged/measure with and without the ring; what leaves run() (identity of the '
+                'exception, wrapping, cause, statistics) and the device-side record, op count, last-ops list and memory must '
+                'equal the reference machine stopped at that call. Real setitimer/SIGINT interrupts on endless loops check the '
+                'asynchronous case: the stopped state must be a sub-step state of the next op at the reported count.',
+        'note': 'native signals are polled every 2^18 ops, so native async stops are observed only there; for exceptions that '
+                'leave run() no statistics object exists to inspect',
+    },
 ]
 
 _TODO = 'check not built yet in this session (work in progress; see DESIGN.md for the planned monitor)'
